@@ -107,7 +107,7 @@ func runConc(tc tcase) *tres {
 		aName = "a_trap"
 	}
 	aDone := make(chan error, nA)
-	started := false
+	started, parked := false, 0
 	startA := func() {
 		started = true
 		for i := 0; i < nA; i++ {
@@ -119,7 +119,13 @@ func runConc(tc tcase) *tres {
 			}()
 		}
 		for i := 0; i < nA; i++ {
-			<-st.aStarted // every A is inside the guest, parked in env.await
+			select {
+			case <-st.aStarted: // this A is inside the guest, parked in env.await
+				parked++
+			case e := <-aDone: // it never got there (e.g. the deadline ran out before its call started)
+				cl, code := classify(e)
+				res.AResults = append(res.AResults, fmt.Sprintf("early:%s/%#x", cl, code))
+			}
 		}
 	}
 	if cs.Order == "b-first" {
@@ -129,7 +135,7 @@ func runConc(tc tcase) *tres {
 	}
 	st.beforeFire = func() {
 		close(st.aRelease)
-		for i := 0; i < nA; i++ {
+		for i := 0; i < parked; i++ {
 			cl, code := classify(<-aDone) // A has returned before the cause is fired
 			res.AResults = append(res.AResults, fmt.Sprintf("%s/%#x", cl, code))
 		}
@@ -146,7 +152,7 @@ func runConc(tc tcase) *tres {
 		default:
 			close(st.aRelease)
 		}
-		for i := 0; i < nA; i++ {
+		for i := 0; i < parked; i++ {
 			select {
 			case e := <-aDone:
 				cl, code := classify(e)
